@@ -224,7 +224,19 @@ func (w *walker) deferStmt(s *state, d *ast.DeferStmt) {
 	c := d.Call
 	if fl, ok := unparen(c.Fun).(*ast.FuncLit); ok {
 		w.evalArgs(s, c.Args)
-		w.closure(s, fl) // must not touch shared state
+		if w.dry {
+			w.closure(s, fl)
+			return
+		}
+		// runs once, at exit, with the bindings of the variables it captures as they are now
+		its, ok := w.inlineClosure(s.clone(), fl)
+		if !ok {
+			w.unknown(s, fl.Pos(), "deferred function literal with several paths")
+			return
+		}
+		if len(its) > 0 {
+			s.defers = append(s.defers, its)
+		}
 		return
 	}
 	// evaluate now (receiver and arguments are evaluated at the defer statement), emit at exit
